@@ -24,8 +24,9 @@ package gochannel
 
 //@ type subscriber
 //@   self s
-//@   monitor sending guards closed(write), outputChannel(close), #lastSent
+//@   monitor sending guards closed(write), outputChannel(close), #lastSent, #lastCtx
 //@   ghostfield lastSent *message.Message
+//@   ghostfield lastCtx context.Context
 //@   ghostfield home *GoChannel
 //@   ghostfield topic string
 //@   ghostfield promised bool
@@ -50,16 +51,17 @@ package gochannel
 //@   requires s != nil && msg != nil && s.ctx != nil
 //@   ghost strong gf(lastSent, s)
 //@   ghost set lastSent(s) = msgToSend @send:s.outputChannel
+//@   ghost set lastCtx(s) = msgToSend.ctx @send:s.outputChannel
 //@   nopanic
 //@   ensures (gf(lastSent, s) != nil && gf(lastSent, s).ackSentType == 1 && sends(s.outputChannel) > old(sends(s.outputChannel))) || s.closed || closed(s.closing) [returns-only-after-the-delivery-was-acked-or-the-subscription-is-closing]
-//@   ensures sends(s.outputChannel) > old(sends(s.outputChannel)) ==> cancelled(gf(lastSent, s).ctx) [the-delivery-context-is-cancelled-afterwards]
+//@   ensures sends(s.outputChannel) > old(sends(s.outputChannel)) ==> cancelled(gf(lastCtx, s)) [the-context-each-copy-was-delivered-with-is-cancelled-afterwards]
 //@   ensures msg.ackSentType == old(msg.ackSentType) || old(msg.ackSentType) == 0 [the-original-is-never-settled-here]
 //@   assert @send:s.outputChannel: msgToSend != nil && msgToSend != msg && fresh(msgToSend) && msgToSend.UUID == msg.UUID && msgToSend.Payload == msg.Payload && fresh(msgToSend.Metadata) && sameMetadata(msgToSend.Metadata, msg.Metadata) && msgToSend.ackSentType == 0 [every-delivery-is-a-fresh-equal-copy]
 //@   assert @send:s.outputChannel: msgToSend.ctx != nil && ctxparent(msgToSend.ctx) == s.ctx && (cancelled(msgToSend.ctx) ==> cancelled(s.ctx)) [delivery-context-derives-from-the-subscription-context-and-is-live-unless-that-ended]
 //@   assert @send:s.outputChannel: !s.closed [never-sends-on-a-closed-subscription]
 //@   assert @send:s.outputChannel: gf(lastSent, s) == nil || gf(lastSent, s).ackSentType != 0 [previous-delivery-settled-before-the-next-one]
 //@   inv loop 1: ctx != nil && ctxparent(ctx) == s.ctx && (cancelled(ctx) ==> cancelled(s.ctx)) && sends(s.outputChannel) >= old(sends(s.outputChannel)) [delivery-context-fixed]
-//@   inv loop 1: sends(s.outputChannel) > old(sends(s.outputChannel)) ==> gf(lastSent, s) != nil && gf(lastSent, s).ackSentType == 2 && gf(lastSent, s).ctx == ctx [a-further-delivery-only-after-a-nack]
+//@   inv loop 1: sends(s.outputChannel) > old(sends(s.outputChannel)) ==> gf(lastSent, s) != nil && gf(lastSent, s).ackSentType == 2 && gf(lastCtx, s) == ctx [a-further-delivery-only-after-a-nack]
 //@   inv loop 1: sends(s.outputChannel) == old(sends(s.outputChannel)) ==> gf(lastSent, s) == entry(gf(lastSent, s)) [first-iteration]
 //@   modifies closed(s.outputChannel)
 
